@@ -212,7 +212,9 @@ func rsAdversaryScenario(kind string, calls int, buf uint, timerThread bool) fun
 			if kind == "GRPCCall" || kind == "Unicast" {
 				c.Node = 1
 			}
-			c.Ctx = context.Background()
+			if !world.IsStream(kind) {
+				c.Ctx = context.Background()
+			}
 			c.Verdict = func(inv *world.QFInv) { inv.Level = len(inv.Keys); inv.Quorum = len(inv.Keys) >= 1 }
 			return c
 		}
@@ -270,6 +272,10 @@ func rsAdversaryScenario(kind string, calls int, buf uint, timerThread bool) fun
 			mc.Outcome("back=%d probe-ok", back)
 		}
 		for _, c := range during {
+			if world.IsStream(kind) {
+				c.Cancel(context.Canceled) // a stream call on a context that never ends is ended here
+				continue
+			}
 			if !c.Returned {
 				fail("C10/call-never-returns", key, "%s: call t%d issued during the outage has not returned although the node is up and every timer has fired", name, c.Tok)
 			}
@@ -279,8 +285,11 @@ func rsAdversaryScenario(kind string, calls int, buf uint, timerThread bool) fun
 
 func rsInstances(tier string) []Instance {
 	var out []Instance
-	for _, kind := range []string{"GRPCCall", "QuorumCall", "Unicast"} {
+	for _, kind := range []string{"GRPCCall", "QuorumCall", "Unicast", "CorrectableStream", "QuorumCallAsync"} {
 		for _, calls := range []int{1, 2} {
+			if (kind == "CorrectableStream" || kind == "QuorumCallAsync") && calls == 2 && !thorough(tier) {
+				continue
+			}
 			for _, buf := range []uint{0, 1} {
 				if buf == 1 && !thorough(tier) && kind != "Unicast" {
 					continue
